@@ -15,7 +15,16 @@ import (
 var keys = []string{"h1", "h2", "H1", "vol", "str", "lst"} // vol: hash with a deadline; str / lst: other types
 var fields = []string{"", "f", "F", "1", "\x00\xffb", "f\r\ng"}
 
-func key(t *rapid.T) string   { return rapid.SampledFrom(keys).Draw(t, "key") }
+// focus: the key most operations of the current program go to (sequences that need several steps on one
+// key - read, change, read again - are rare when every operation draws its key afresh)
+var focus string
+
+func key(t *rapid.T) string {
+	if focus != "" && rapid.IntRange(0, 2).Draw(t, "onfocus") > 0 {
+		return focus
+	}
+	return rapid.SampledFrom(keys).Draw(t, "key")
+}
 func field(t *rapid.T) string { return rapid.SampledFrom(fields).Draw(t, "field") }
 
 func value(t *rapid.T) string {
@@ -111,8 +120,19 @@ func GenProgram(t *rapid.T) prog.Program {
 	if rapid.IntRange(0, 2).Draw(t, "prologue") > 0 {
 		p.Ops = append(p.Ops, kit.MkCmd("SET", "str", "v"), kit.MkCmd("RPUSH", "lst", "x"), kit.MkCmd("HSET", "vol", "f", "1"), kit.MkCmd("EXPIRE", "vol", "5000"))
 	}
+	focus = ""
+	if rapid.Bool().Draw(t, "focused") {
+		focus = rapid.SampledFrom(keys[:4]).Draw(t, "focus")
+	}
 	n := rapid.SampledFrom([]int{1, 3, 6, 12, 25, 40}).Draw(t, "len")
 	for i := 0; i < n; i++ {
+		if rapid.IntRange(0, 14).Draw(t, "idiom") == 0 {
+			// random picks around a change of the field set that keeps its size
+			k := key(t)
+			p.Ops = append(p.Ops, kit.MkCmd("hrandfield", k, gen.Pick(t, "c1", "-8", "3", "8")), kit.MkCmd("hdel", k, field(t)),
+				kit.MkCmd("hset", k, field(t), value(t)), kit.MkCmd("hrandfield", k, gen.Pick(t, "c2", "-8", "-8", "8", "3"), "withvalues"))
+			continue
+		}
 		p.Ops = append(p.Ops, genOp(t))
 	}
 	return p
